@@ -60,6 +60,11 @@ def gen_cases(ctx):
     geo = [(0, 1, 2), (1, 1, 2), (0, 2, 3), (1, 2, 4), (0, 1, 3)]
     for j, (p, la, lb) in enumerate(geo if quick else geo + [(2, 2, 3), (2, 3, 4), (0, 3, 4), (1, 3, 5)]):
         blocks = cd.two_branches(p, la, lb, shared=(j % 2 == 0))
+        # governance: an effective DAO vote (gas price) on the new branch (or on the old one): the in-memory system
+        # parameters after a recovery must be those of the recovered best block (P11), its next valid child accepted (P12)
+        for b in blocks:
+            if b["name"] == ("B0" if j % 3 != 2 else "A0"):
+                b["gov"] = 20
         names = [b["name"] for b in blocks]
         cases.append(crash_opts(ctx, {"id": "g%d" % j, "naccts": 3, "blocks": blocks, "arrivals": list(names), "mode": "crash"}))
         a_first = [n for n in names if n[0] in "pA"]
@@ -70,6 +75,8 @@ def gen_cases(ctx):
         for b in blocks:                          # every block carries a tx: empty test-genesis root has no state marker
             if not b["txs"]:
                 b["txs"] = cd.rnd_txs(rng, 1, 1)
+        if rng.random() < 0.6:
+            cd.add_gov(rng, blocks)
         c = {"id": "r%d" % i, "naccts": 3, "blocks": blocks, "arrivals": cd.rnd_arrivals(rng, blocks, dup=0.0), "mode": "crash"}
         cases.append(crash_opts(ctx, c) if (not quick or i < 2) else c)
     return cases
@@ -121,15 +128,19 @@ def model_units(ctx, cases, outs, f7_fixed):
     return res, ""
 
 
-def benign_diff(kr, o):
+def benign_diff(kr, o, has_bad=False):
     """Replay reached the same best block and the same main chain; the stores differ only by additional
     side-branch blocks/receipts/state: a block rejected as a main-chain candidate in the crash-free run (not stored) is
     stored unvalidated as a side block when it is re-delivered after the tip has moved on."""
     d = kr.get("diff") or {}
     ch = d.get("chain") or []
     stt = d.get("state") or []
+    # the other direction: the crash-free node parked an invalid block as an orphan, rejected it when its parent arrived
+    # (the PARENT's hash goes to errBlocks) and stored it unvalidated as a side block at the second delivery, while the
+    # replaying node (parent already connected) executes it as a main-chain candidate, caches it in errBlocks and never stores it
+    ok_ch = ("extra:blk", "extra:rcpt") + (("missing:blk",) if has_bad else ())
     return (kr.get("replay_best") == o["final"]["best"] and bool(ch or stt)
-            and all(x.startswith(("extra:blk", "extra:rcpt")) for x in ch) and all(x.startswith("extra:") for x in stt))
+            and all(x.startswith(ok_ch) for x in ch) and all(x.startswith("extra:") for x in stt))
 
 
 def run(ctx):
@@ -171,7 +182,7 @@ def run(ctx):
                 what = ("C06:marker-left", "reorg marker still present after recovery (crash at unit %d)" % k)
             elif not (kr["legit"] or kr.get("legit_mid")):
                 what = ("C06:best-not-legit", "best block after crash at unit %d + recovery is neither the old nor the new tip" % k)
-            elif not kr["converged"] and benign_diff(kr, o):
+            elif not kr["converged"] and benign_diff(kr, o, any(b.get("bad") for b in c["blocks"])):
                 nbenign[0] += 1
             elif not kr["converged"] and any("reorg failed" in st["err"] for st in o.get("steps", [])) and any(b.get("bad") for b in c["blocks"]):
                 # the crash-free run itself was held back by the C07 orphan-tail finding (reorg towards an invalid parked tail
@@ -186,6 +197,11 @@ def run(ctx):
                     what = ("C06:not-converged", "replay after crash at unit %d does not reach the crash-free final state" % k)
             if what:
                 fails.append((what[0], what[1], {"case": c, "k": k, "p": kr.get("p", 0), "crash": {x: y for x, y in kr.items() if x != "recrash"}}))
+            r2 = kr.get("recover2") or {}
+            if r2.get("pred"):
+                fails.append(("C06:recover2-inv:" + r2["pred"][0].split(" ")[0],
+                              "invariant fails after the journaled recovery following the crash at unit %d: %s" % (k, r2["pred"][0]),
+                              {"case": c, "k": k, "p": kr.get("p", 0), "recover2": r2}))
             if kr.get("recrash_error"):
                 fails.append(("C06:recrash-start", "journaled second start failed after crash at unit %d: %s" % (k, kr["recrash_error"][:80]),
                               {"case": c, "k": k}))
